@@ -2,6 +2,7 @@
 positive control under rules/positive/ that must be reported on every run."""
 import collections
 import os
+import re
 
 from .. import ast as A
 
@@ -194,3 +195,63 @@ def rule_field_correspondence(ctx):
     _, o2 = _field_corr(pc)
     if len(o2) != 1:
         ctx.report("fieldcorr:positive-control", "rules/positive/fieldcorr.rs", f"the positive control yields {len(o2)} reports instead of 1", {})
+
+
+def _pos_search_sites(files):
+    """`xs.iter().position(|x| *x == y)` / `rposition` / `.iter().enumerate().find(|(_, x)| x == y)`: the position of an
+    element recovered by comparing whole elements"""
+    out = []
+    for rel, f in sorted(files.items()):
+        for fn in A.functions(f):
+            if fn.block is None:
+                continue
+            for mc, _ in A.find(fn.block, "Expr::MethodCall"):
+                if mc["method"]["sym"] not in ("position", "rposition") or len(mc["args"]) != 1 or A.kind(mc["args"][0]) != "Expr::Closure":
+                    continue
+                cl = mc["args"][0]
+                ids = A.pat_idents(cl["inputs"][0]) if cl["inputs"] else []
+                body = A.peel(cl["body"])
+                if len(ids) != 1 or A.kind(body) != "Expr::Binary" or A.kind(body["op"]) != "BinOp::Eq":
+                    continue
+
+                def bare(e):
+                    e = A.peel(e)
+                    while A.kind(e) == "Expr::Unary" and A.kind(e["op"]) == "UnOp::Deref":
+                        e = A.peel(e["expr"])
+                    return A.path_str(e) if A.kind(e) == "Expr::Path" else None
+
+                l, r = bare(body["left"]), bare(body["right"])
+                # the closure parameter itself (not a field / key of it) compared with another whole value
+                if (l == ids[0] and r and r != ids[0]) or (r == ids[0] and l and l != ids[0]):
+                    other = r if l == ids[0] else l
+                    on = body["right"] if l == ids[0] else body["left"]
+                    out.append((f, fn, mc, other, on))
+    return out
+
+
+def rule_position_search(ctx):
+    """POS-SEARCH: no derive recovers the position of a field / type / variant by searching for an *equal* element (`fields.iter().position(|f| *f == field)`): syn's equality is structural, so with two fields of the same type (and no names) the first one is found for both - the generated code then reads `self.0` twice. Positions come from `enumerate()` / the iteration itself. Closed set, expected empty (positive control: rules/positive/possearch.rs)."""
+    files = {rel: f for rel, f in ctx.files.items() if rel.startswith("impl/src/")}
+    from .. import types as TY
+
+    sites = []
+    for f, fn, mc, other, on in _pos_search_sites(files):
+        sp = A.span_of(on)
+        ty, _b = TY.var_type_at(ctx, fn, other, sp[0] if sp else 0)
+        t_ = (ty or "").replace("&", "").replace("mut ", "").strip()
+        # keys that identify an element uniquely (an index, a name) are fine; whole syntax nodes are not
+        if re.fullmatch(r"(usize|u\d+|i\d+|isize|char|bool|str|std::string::String|syn::Ident|proc_macro2::Ident)", t_):
+            ctx.instance(f"possearch:{f.rel}::{fn.qual}:by-key", sample={"key type": t_})
+            continue
+        sites.append((f, fn, mc))
+    for f, fn, mc in sites:
+        ctx.instance(f"possearch:{f.rel}::{fn.qual}")
+        ctx.report(f"possearch:{f.rel}::{fn.qual}", ctx.where(f, mc["method"]), f"`{fn.qual}` finds an index with `{A.render(mc)[:100]}`: equality of syntax nodes is structural, two like-typed unnamed fields are equal, so every one of them gets the index of the first (`struct Pair(T, T)`: `-Pair(a, b)` becomes `Pair(-a, -a)`)", {})
+    fns = sum(len(A.functions(f)) for f in files.values())
+    ctx.cur.instances += fns
+    ctx.note(f"{fns} functions scanned, {len(sites)} positions recovered by equality search")
+    pc = A.load_files([os.path.join(POS, "possearch.rs")])
+    ctx.instance("possearch:positive-control")
+    got = len(_pos_search_sites(pc))
+    if got != 3:
+        ctx.report("possearch:positive-control", "rules/positive/possearch.rs", f"the positive control yields {got} sites instead of 3", {})
